@@ -24,7 +24,7 @@ ROOT = os.path.dirname(os.path.dirname(os.path.abspath(__file__)))
 LIB = 'simprocesd/model'
 
 FILE_CHECKS = {
-    'simulation.py': ['C01', 'C07', 'C06', 'C13', 'C15'],
+    'simulation.py': ['C07', 'C01', 'C06', 'C13', 'C15'],
     'system.py': ['C20', 'C14', 'C01', 'C16'],
     'resource_manager.py': ['C09', 'C10', 'C11', 'C03', 'C15'],
     'factory_floor/asset.py': ['C16', 'C20'],
@@ -156,7 +156,7 @@ def count_sites(src):
 
 
 def run_one(task):
-    rel, k, procs, tier = task
+    rel, k, procs, tier, checks = task
     srcpath = os.path.join('/repo', LIB, rel)
     src = open(srcpath).read()
     new, desc, _ = mutate(src, k)
@@ -183,7 +183,7 @@ def run_one(task):
         rec['status'] = 'survives-suite'
         env = dict(os.environ, SIMPROCESD_REPO=repo, VERIF_OUT_DIR=os.path.join(tmp, 'out'), VERIF_FAST_FAIL='1')
         rec['checks'] = {}
-        for p in FILE_CHECKS[rel]:
+        for p in checks:
             t0 = time.time()
             try:
                 c = subprocess.run([os.path.join(ROOT, 'run_check.py'), p, '--tier', tier, '--procs', str(procs)], env=env,
@@ -214,7 +214,10 @@ def main():
     ap.add_argument('--limit', type=int, default=None)
     ap.add_argument('--stride', type=int, default=1, help='take every n-th mutation site')
     ap.add_argument('--tier', default='quick')
+    ap.add_argument('--nchecks', type=int, default=2, help='how many of the mapped checks (most relevant first) to run')
     a = ap.parse_args()
+    for k_ in FILE_CHECKS:
+        FILE_CHECKS[k_] = FILE_CHECKS[k_][:a.nchecks]
     files = a.files.split(',') if a.files else list(FILE_CHECKS)
     done = set()
     if os.path.exists(a.out):
@@ -229,7 +232,7 @@ def main():
         n = count_sites(open(os.path.join('/repo', LIB, rel)).read())
         for k in range(0, n, a.stride):
             if (rel, k) not in done:
-                tasks.append((rel, k, a.procs, a.tier))
+                tasks.append((rel, k, a.procs, a.tier, FILE_CHECKS[rel]))
     if a.limit:
         tasks = tasks[:a.limit]
     print(f'{len(tasks)} mutants to do ({len(done)} already done)', flush=True)
